@@ -78,13 +78,35 @@ type stackFactory struct {
 	Dead    map[string]bool // address -> VerifyReplicaAlive answers false
 	Forward bool            // forward SignalToAdd / VerifyReplicaAlive to the node's REST
 	Creates []string
+	gate    chan struct{}
 }
 
 func (f *stackFactory) Create(address string) (types.Backend, error) {
 	f.mu.Lock()
 	f.Creates = append(f.Creates, address)
+	g := f.gate
 	f.mu.Unlock()
+	if g != nil {
+		// held here by an "addrace" step: the controller has admitted the
+		// request and released its lock for the duration of the connection
+		select {
+		case <-g:
+		case <-time.After(10 * time.Second):
+		}
+	}
 	return f.real.Create(address)
+}
+
+func (f *stackFactory) setGate(g chan struct{}) {
+	f.mu.Lock()
+	f.gate = g
+	f.mu.Unlock()
+}
+
+func (f *stackFactory) nCreates() int {
+	f.mu.Lock()
+	defer f.mu.Unlock()
+	return len(f.Creates)
 }
 
 func (f *stackFactory) SignalToAdd(address, action string) error {
@@ -140,6 +162,8 @@ type Stack struct {
 	CtrlIP string
 	ctrlLn net.Listener
 	System bool
+	// PromoWindow, when set, runs between VerifyRebuildReplica and SetRebuilding(false)
+	PromoWindow func()
 }
 
 var slotSeq int
@@ -444,6 +468,11 @@ func (st *Stack) Promote(src, dst int) error {
 	}
 	if err := st.C.VerifyRebuildReplica(d.Addr); err != nil {
 		return fmt.Errorf("verify: %v", err)
+	}
+	// the replica is RW for the controller but still flagged rebuilding: the
+	// product's last step is a separate request from the replica process
+	if st.PromoWindow != nil {
+		st.PromoWindow()
 	}
 	if err := d.S.SetRebuilding(false); err != nil {
 		return fmt.Errorf("setrebuilding(false): %v", err)
